@@ -221,6 +221,7 @@ def run(ctx):
                whyb if okb else 'recursion depth follows the schema graph with no depth budget: a deep (acyclic) graph overflows the stack')
 
     json_recursion(ctx, with_budget=True)
+    canon_guard_semantics(ctx, scope)
 
     # ---- Debug rendering is depth-limited
     dbg = [b for b in scope if fn_label(b) == '<schema::self_referential::SchemaNode as core::fmt::Debug>::fmt']
@@ -370,6 +371,85 @@ def _switch_edges(g, bb):
     if not t0:
         return None
     return t['otherwise'], t0[0]
+
+
+def canon_guard_semantics(ctx, scope):
+    """the in-progress guard of the canonical-form writer (unnamed containers): entering refuses a node already in
+    progress, and the node stays in progress for as long as its children are being written"""
+    f = ctx.f
+    CFM = 'schema::safe::canonical_form::'
+    w = [b for b in scope if fn_label(b) == CFM + 'WriteCanonicalFormState::write_canonical_form' and b.j['kind'] != 'closure']
+    if not w:
+        ctx.ob('RECGUARD-T', 'canon/anchor', False, None, 'write_canonical_form not found')
+        return
+    w = w[0]
+
+    def touches(b):
+        for bb in b.live_blocks():
+            for s_ in b.stmts(bb):
+                if 'assign' in s_:
+                    rv = s_['rv']
+                    pls = [s_['assign']] + ([rv['place']] if 'place' in rv else [])
+                    if any(isinstance(e, dict) and e.get('f') == 'unnamed_in_progress' for p_ in pls for e in p_.get('p', [])):
+                        return True
+        return False
+    helpers = [b for b in scope if b.j['kind'] != 'closure' and b is not w and fn_label(b).startswith(CFM) and touches(b)]
+    enter = [b for b in helpers if (b.local_ty(0) or '').startswith('core::result::Result')]
+    leave = [b for b in helpers if b.local_ty(0) == '()']
+    if len(enter) != 1 or len(leave) != 1:
+        ctx.ob('RECGUARD-T', 'canon/helpers', False, short_loc(w.span), 'expected one fallible (enter) and one infallible (leave) helper touching unnamed_in_progress, found %d/%d' % (len(enter), len(leave)))
+        return
+    en, lv = enter[0], leave[0]
+    ctx.touched(en); ctx.touched(lv)
+    # enter: a bool test of the table entry; the false edge marks it and returns Ok, the other edge errs
+    ok, det = False, 'no test of the table entry found'
+    for bb in sorted(en.live_blocks()):
+        if en.term(bb)['k'] != 'switch':
+            continue
+        si = en.switch_info(bb)
+        if si.get('kind') == 'enum':
+            continue
+        so = origin(en, si['op'])
+        if 'unnamed_in_progress' not in so.fields:
+            continue
+        edges = _switch_edges(en, bb)
+        if edges is None:
+            continue
+        t_edge, f_edge = edges
+        marks = False
+        for x in en.reachable_from(f_edge):
+            for s_ in en.stmts(x):
+                if 'assign' in s_ and s_['assign'].get('p') and s_['rv']['k'] == 'use' and const_int(s_['rv']['op']) == 1 and \
+                        'unnamed_in_progress' in origin(en, s_['assign']).fields:
+                    marks = True
+        ok = marks and all_paths_err(en, t_edge) and bool(ok_return_blocks(en, en.reachable_from(f_edge)))
+        det = 'entry false => marked in progress and Ok: %s; entry true (already in progress) => Err: %s' % (marks, all_paths_err(en, t_edge))
+    ctx.ob('RECGUARD-T', 'canon/enter-refuses-in-progress', ok, short_loc(en.span), det)
+    # leave: writes false
+    okl = False
+    for x in lv.live_blocks():
+        for s_ in lv.stmts(x):
+            if 'assign' in s_ and s_['assign'].get('p') and s_['rv']['k'] == 'use' and const_int(s_['rv']['op']) == 0 and 'unnamed_in_progress' in origin(lv, s_['assign']).fields:
+                okl = True
+    ctx.ob('RECGUARD-T', 'canon/leave-clears', okl, short_loc(lv.span), 'the leave helper resets the entry to false: %s' % okl)
+    # bracket: between enter and leave of the same arm lie all recursive calls of that arm; no recursion after a leave
+    ecalls = [(bb, t) for bb, t in w.calls() if (t.get('resolved') or t.get('callee')) == en.id]
+    lcalls = [(bb, t) for bb, t in w.calls() if (t.get('resolved') or t.get('callee')) == lv.id]
+    rcalls = [(bb, t) for bb, t in w.calls() if (t.get('resolved') or t.get('callee')) == w.id]
+    eb = [bb for bb, _ in ecalls]
+    n = 0
+    for i, (bb, t) in enumerate(sorted(ecalls)):
+        te = try_edges(w, bb)
+        mine = [r for r, _ in rcalls if te is not None and w.dominates(te[0], r)]
+        lv_mine = [l for l, _ in lcalls if te is not None and w.dominates(te[0], l)]
+        after_leave = [r for r in mine if any(r in w.reachable_from(w.term(l)['target'], avoid=eb) for l in lv_mine)]
+        rets = [x for x in ok_return_blocks(w)]
+        closed = bool(lv_mine) and te is not None and bool(mine) and not after_leave and \
+            all(must_pass(w, w.term(r)['target'] if try_edges(w, r) is None else try_edges(w, r)[0], rets, lv_mine) for r in mine)
+        n += 1
+        ctx.ob('RECGUARD-T', 'canon/bracket#%d' % i, closed, short_loc(t.get('span')),
+               'children are written while the node is in progress (%d recursive call(s) after enter, %d after a leave) and the node is left on every Ok path: %s' % (len(mine), len(after_leave), closed))
+    ctx.floor('RECGUARD-T', 'unnamed containers guarded in the canonical form', n, 3)
 
 
 def json_guard_semantics(ctx, f, kb, scope):
